@@ -174,10 +174,15 @@ func run(c *hc.Ctx) error {
 			try(c, &q, "foreign-key", recv, b.key, b.ak, b2.ct, true)
 		}
 	}
+	// correctly keyed frames that fail *after* the msg_key check (length field, padding bounds): the only
+	// way to reach the later error returns; same nil-result monitor
+	for i := c.N(1500, 50000); i > 0; i-- {
+		c04shared.CraftedFrame(c, &q, "C05")
+	}
 	if err := q.Flush(c); err != nil {
 		return err
 	}
-	c.Res.Rule = "per valid ciphertext (real Cipher.Encrypt, random 2048-bit key, both directions, payload 0..1200 bytes): all 192 single-bit flips of auth_key_id and msg_key, 288 body bit flips (first and last block completely + random), 24 multi-bit edits, truncations and extensions by 1..32 bytes and to 0/1/7/8/23/24/25/39/40 bytes, block drop/swap, reflection to the sending side, foreign keys (own id / same id / same key other id / one-bit-different key). Non-trivial = every mutant (must be rejected); the genuine frame (must be accepted) is the trivial control; distinct = distinct input line"
+	c.Res.Rule = "per valid ciphertext (real Cipher.Encrypt, random 2048-bit key, both directions, payload 0..1200 bytes): all 192 single-bit flips of auth_key_id and msg_key, 288 body bit flips (first and last block completely + random), 24 multi-bit edits, truncations and extensions by 1..32 bytes and to 0/1/7/8/23/24/25/39/40 bytes, block drop/swap, reflection to the sending side, foreign keys (own id / same id / same key other id / one-bit-different key). Plus 1 500 / 50 000 correctly keyed hand-sealed frames with length fields and padding around the bounds (reach the error returns behind the msg_key check). Non-trivial = every mutant (must be rejected); the genuine frame (must be accepted) is the trivial control; distinct = distinct input line"
 	c.PartialNote("rejection of msg_key/body mutations, reflection and same-id foreign keys rests on SHA-256 acting as a MAC (hypothesis MacDiffers of the theorems); the run observes it on every mutant but cannot prove it")
 	return nil
 }
